@@ -1,7 +1,336 @@
-"""Property-specific procedures beyond the shared trace jobs (filled in below)."""
-EXTRA = {}
+"""Property-specific procedures beyond the shared trace jobs: fact tables (C19 layout, C18 noexcept table,
+C13 conversions / minimal requirements) validated by spec/Facts.tla, long append runs (C14), ...
+Each returns a result dict in the same format as jobs.run_job."""
+import concurrent.futures as cf
+import hashlib
+import itertools
+import json
+import os
+import shutil
+import subprocess
+import time
+
+import pipeline as P
+import tlaparse
+
+INC = os.path.join(P.REPO, 'source', 'include')
+
+
+def h12(s):
+    return hashlib.sha256(s.encode()).hexdigest()[:12]
+
+
+def compile_prog(src, flags, std='c++17', cxx='g++', opt='-O0', syntax_only=False):
+    """Compile a facts program (cached by header + source + flags).  Returns (exe or None, log)."""
+    key = P.sha('facts', P.header_sha(), P.file_sha(src) if os.path.exists(src) else src, json.dumps(flags), std, cxx, opt, syntax_only)
+    d = os.path.join(P.CACHE, 'facts', key)
+    exe = os.path.join(d, 'prog')
+    logf = os.path.join(d, 'log')
+    with P.Lock(d):
+        if os.path.exists(logf):
+            return (exe if os.path.exists(exe) else None), open(logf).read()
+        os.makedirs(d, exist_ok=True)
+        cmd = [cxx, '-std=' + std, opt, '-w', '-I', INC] + flags
+        cmd += ['-fsyntax-only', src] if syntax_only else ['-o', exe + '.tmp', src]
+        p = subprocess.run(cmd, stdout=subprocess.PIPE, stderr=subprocess.STDOUT)
+        log = p.stdout.decode('utf-8', 'replace')
+        if p.returncode == 0 and not syntax_only:
+            os.rename(exe + '.tmp', exe)
+        open(logf, 'w').write(('OK\n' if p.returncode == 0 else 'FAIL\n') + log[-6000:])
+        return (exe if os.path.exists(exe) else None), open(logf).read()
+
+
+def validate_facts(lines, tag, prop_filter=None):
+    """Validate fact lines with spec/Facts.tla.  Returns result dict pieces."""
+    wd = os.path.join(P.CACHE, 'factrun', P.sha(tag, time.time(), os.getpid()))
+    os.makedirs(wd, exist_ok=True)
+    tf = os.path.join(wd, 'facts.ndjson')
+    with open(tf, 'w') as f:
+        for ln in lines:
+            f.write(ln.rstrip('\n') + '\n')
+    md = os.path.join(wd, 'md')
+    rc, out = P.java_tlc(['-workers', '1', '-metadir', md, '-config', os.path.join(P.SPEC, 'Trace.cfg'),
+                          os.path.join(P.SPEC, 'Facts.tla')], env={'TRACE': tf}, timeout=3600, xmx='4g')
+    viol, hits, end = [], {}, None
+    for v in tlaparse.values(out):
+        if not v:
+            continue
+        if v[0] == 'V':
+            viol.append((v[1], v[2], v[3]))
+        elif v[0] == 'H':
+            hits[v[1]] = v[2]
+        elif v[0] == 'END':
+            end = v[1]
+    if 'Model checking completed. No error has been found.' not in out or end != len(lines):
+        open(os.path.join(wd, 'tlc.out'), 'w').write(out)
+        raise RuntimeError('TLC fact validation failed (%s): see %s\n%s' % (tag, wd, out[-2500:]))
+    shutil.rmtree(wd, ignore_errors=True)
+    return viol, hits
+
+
+def fact_sig(f):
+    t = f.get('t')
+    if t == 'layout':
+        return 'layout|S%s|Al%s|K%s|b%s' % (f['S'], f['Al'], f['K'], f['bits'])
+    if t == 'noexcept':
+        return 'noexcept|%s|N%s|I%s|%s%s%s|%s%s%s%s|%s|%s' % (f['op'], f['N'], f['I'], f['nmc'], f['nma'], f['nsw'], f['isStd'], f['pocma'],
+                                                           f['pocs'], f['ae'], f['allocDefNoex'], f['cpp'])
+    if t == 'itertraits':
+        return 'iter|N%s|%s' % (f['N'], f['cpp'])
+    if t in ('conv', 'convptr'):
+        return '%s|%s|N%s|%s->%s|%s' % (t, f['op'], f['N'], f['src'], f['dst'], f['cpp'])
+    if t == 'req':
+        return 'req|%s|%s|%s' % (f['op'], f['arch'], f.get('std'))
+    if t == 'compile':
+        return 'compile|%s|%s' % (f['what'], f.get('cfg'))
+    return json.dumps(f, sort_keys=True)[:80]
+
+
+def facts_result(lines, meta, label, kind, prop_filter=None):
+    """meta[i]: how to regenerate line i (for replay)."""
+    viol, hits = validate_facts(lines, label)
+    sigs, nlines = {}, {}
+    facts = [json.loads(x) for x in lines]
+    for i, ps in hits.items():
+        for p in ps:
+            sigs.setdefault(p, set()).add(h12(fact_sig(facts[i - 1])))
+            nlines[p] = nlines.get(p, 0) + 1
+    violations = []
+    for (i, p, n) in viol:
+        f = facts[i - 1]
+        violations.append(dict(property=p, check=n, op=f.get('op', f.get('t')), cfg=fact_sig(f), k=None, fk=None, pre=None, kind='facts',
+                               extra=dict(gen=meta[i - 1], fact=f, fact_sig=fact_sig(f), factkind=kind), out=None, a=None))
+    return dict(lines=len(lines), ops=len(lines), restarts=0, skipped=0, sample=[x[:1200] for x in lines[:2]],
+                sigs={p: sorted(s) for p, s in sigs.items()}, nlines=nlines, violations=violations, stims=len(lines),
+                stims_total=len(lines), mc=None, drv=label, drvconf=None, fmode=0, label=label)
+
+
+def _run_many(fn, items, workers=None):
+    with cf.ThreadPoolExecutor(max_workers=workers or max(2, P.NCPU - 2)) as ex:
+        return list(ex.map(fn, items))
+
+
+# ------------------------------------------------------------------------------------------------ C19
+LAYOUT_K = [0, 1, 4, 8, 12, 16, 20, 24]
+LAYOUT_BITS = [64, 32, 16, 8]
+
+
+def layout_gen(cfg):
+    K, bits, std, cxx = cfg
+    exe, log = compile_prog(os.path.join(P.HARNESS, 'facts_layout.cpp'), ['-DLK=%d' % K, '-DLBITS=%d' % bits], std, cxx)
+    if not exe:
+        raise RuntimeError('facts_layout does not compile (%s): %s' % (cfg, log[-1500:]))
+    out = subprocess.run([exe], stdout=subprocess.PIPE).stdout.decode()
+    return [(ln, dict(kind='layout', cfg=list(cfg))) for ln in out.splitlines() if ln.startswith('{')]
+
+
+def c19(tier, seed):
+    grid = [(K, b) for K in LAYOUT_K for b in LAYOUT_BITS]
+    if tier == 'quick':
+        rot = seed % len(grid)
+        pick = [(0, 64), (0, 16), (8, 32)] + [grid[(rot + 7 * i) % len(grid)] for i in range(3)]
+        cfgs = sorted({(K, b, 'c++17', 'g++') for K, b in pick})
+    else:
+        cfgs = [(K, b, 'c++17', 'g++') for K, b in grid] + [(0, 64, 'c++11', 'clang++'), (8, 16, 'c++20', 'clang++'), (0, 64, 'c++23', 'g++')]
+    rows = [r for rs in _run_many(layout_gen, cfgs) for r in rs]
+    res = facts_result([r[0] for r in rows], [r[1] for r in rows], 'layout facts: %d configurations (state bytes, size_type bits, std, compiler)' % len(cfgs), 'layout')
+    res['coverage_extra'] = dict(explanation='sizeof/alignof/default inline capacity/inline buffer offset of %d real class layouts '
+                                 '(Blob<S,Al> for S in 1..72, Al | S; allocator state bytes x size_type width: %s) validated against the '
+                                 'C19 predicate in spec/Facts.tla; exhaustive over the element grid for the listed allocator configurations'
+                                 % (len(rows), sorted({(c[0], c[1]) for c in cfgs})),
+                                 exhaustive=(tier != 'quick'))
+    return res
+
+
+# ------------------------------------------------------------------------------------------------ C18 table
+def noexcept_gen(cfg):
+    (nmc, nma, nsw, akind, pocma, pocs, ae, defnoex, std, cxx) = cfg
+    flags = ['-DE_NMC=%d' % nmc, '-DE_NMA=%d' % nma, '-DE_NSW=%d' % nsw, '-DA_KIND=%d' % akind, '-DA_POCMA=%d' % pocma,
+             '-DA_POCS=%d' % pocs, '-DA_AE=%d' % ae, '-DA_DEFNOEX=%d' % defnoex]
+    exe, log = compile_prog(os.path.join(P.HARNESS, 'facts_noexcept.cpp'), flags, std, cxx)
+    if not exe:
+        raise RuntimeError('facts_noexcept does not compile (%s): %s' % (cfg, log[-1500:]))
+    out = subprocess.run([exe], stdout=subprocess.PIPE).stdout.decode()
+    return [(ln, dict(kind='noexcept', cfg=list(cfg))) for ln in out.splitlines() if ln.startswith('{')]
+
+
+def c18_table(tier, seed):
+    elems = list(itertools.product((1, 0), repeat=3))
+    allocs = [(0, 0, 0, 0, 1)] + [(1, a, b, c, d) for a, b, c in itertools.product((0, 1), repeat=3) for d in (1, 0)]
+    if tier == 'quick':
+        stds = [('c++17', 'g++'), ('c++11', 'g++'), ('c++20', 'clang++')]
+        cfgs = [e + a + stds[0] for e in elems for a in allocs if a[4] == 1 or a[1:4] == (0, 0, 0)]
+        rot = seed % 8
+        cfgs += [elems[(rot + i) % 8] + allocs[(rot * 3 + 5 * i) % len(allocs)] + s for i in range(6) for s in stds[1:]]
+    else:
+        stds = [('c++11', 'g++'), ('c++14', 'g++'), ('c++17', 'g++'), ('c++20', 'g++'), ('c++23', 'g++'), ('c++14', 'clang++'),
+                ('c++17', 'clang++'), ('c++20', 'clang++')]
+        cfgs = [e + a + s for e in elems for a in allocs for s in stds]
+    cfgs = sorted(set(cfgs))
+    rows = [r for rs in _run_many(noexcept_gen, cfgs) for r in rs]
+    res = facts_result([r[0] for r in rows], [r[1] for r in rows],
+                       'noexcept table: %d (element traits x allocator traits x standard) instantiations' % len(cfgs), 'noexcept')
+    return res
+
+
+# ------------------------------------------------------------------------------------------------ C13 conversions
+def conv_gen(cfg):
+    part, std, cxx = cfg
+    src = os.path.join(P.HARNESS, 'facts_conv.cpp')
+    rows = []
+    exe, log = compile_prog(src, ['-DPART=%d' % part, '-DCONV_SVIT_DIFF=1'], std, cxx)
+    what = 'range of iterators of a small_vector<Src> accepted by small_vector<Dst> (construct from a convertible value type)'
+    rows.append((json.dumps(dict(t='compile', prop='C13', what=what, cfg='part%d-%s-%s' % (part, std, cxx), compiles=bool(exe))),
+                 dict(kind='conv', cfg=list(cfg))))
+    if not exe:
+        exe, log2 = compile_prog(src, ['-DPART=%d' % part, '-DCONV_SVIT_DIFF=0'], std, cxx)
+        what2 = 'ranges (pointers, forward iterators, move iterators) of a convertible value type accepted by construct / assign / insert / append'
+        rows.append((json.dumps(dict(t='compile', prop='C13', what=what2, cfg='part%d-%s-%s' % (part, std, cxx), compiles=bool(exe),
+                                     log=(log2 if not exe else '')[-600:])), dict(kind='conv', cfg=list(cfg))))
+        if not exe:
+            return rows
+    out = subprocess.run([exe], stdout=subprocess.PIPE).stdout.decode()
+    rows += [(ln, dict(kind='conv', cfg=list(cfg))) for ln in out.splitlines() if ln.startswith('{')]
+    return rows
+
+
+# ------------------------------------------------------------------------------------------------ C13 archetypes
+ARCH = {
+    # name: (class body, provided named requirements)
+    'Regular': ('''int v; A () : v (0) { } A (const A &o) : v (o.v) { } A (A &&o) noexcept : v (o.v) { }
+                   A &operator= (const A &o) { v = o.v; return *this; } A &operator= (A &&o) noexcept { v = o.v; return *this; } ~A () { }''',
+                ['DefaultInsertable', 'CopyInsertable', 'MoveInsertable', 'CopyAssignable', 'MoveAssignable', 'Erasable', 'EmplaceConstructible']),
+    'RegularTriv': ('int v;',
+                    ['DefaultInsertable', 'CopyInsertable', 'MoveInsertable', 'CopyAssignable', 'MoveAssignable', 'Erasable', 'EmplaceConstructible']),
+    'NoAssign': ('''int v; A () : v (0) { } A (const A &o) : v (o.v) { } ~A () { }
+                    A &operator= (const A &) = delete;''',
+                 ['DefaultInsertable', 'CopyInsertable', 'MoveInsertable', 'Erasable', 'EmplaceConstructible']),
+    'NoAssignTriv': ('''int v; A () = default; A (const A &) = default; A &operator= (const A &) = delete;''',
+                     ['DefaultInsertable', 'CopyInsertable', 'MoveInsertable', 'Erasable', 'EmplaceConstructible']),
+    'MoveOnlyNoAssign': ('''int v; A () : v (0) { } A (A &&o) noexcept : v (o.v) { } A (const A &) = delete; ~A () { }
+                            A &operator= (A &&) = delete; A &operator= (const A &) = delete;''',
+                         ['DefaultInsertable', 'MoveInsertable', 'Erasable', 'EmplaceConstructible']),
+    'MoveOnlyNoAssignTriv': ('''int v; A () = default; A (A &&) = default; A (const A &) = delete;
+                                A &operator= (A &&) = delete; A &operator= (const A &) = delete;''',
+                             ['DefaultInsertable', 'MoveInsertable', 'Erasable', 'EmplaceConstructible']),
+    'NoDefault': ('''int v; explicit A (int x) : v (x) { } A (const A &o) : v (o.v) { } A &operator= (const A &o) { v = o.v; return *this; } ~A () { }''',
+                  ['CopyInsertable', 'MoveInsertable', 'CopyAssignable', 'MoveAssignable', 'Erasable', 'EmplaceConstructible']),
+    'NoDefaultTriv': ('''int v; explicit A (int x) : v (x) { } A (const A &) = default; A &operator= (const A &) = default;''',
+                      ['CopyInsertable', 'MoveInsertable', 'CopyAssignable', 'MoveAssignable', 'Erasable', 'EmplaceConstructible']),
+}
+TWIN = {'Regular': 'RegularTriv', 'NoAssign': 'NoAssignTriv', 'MoveOnlyNoAssign': 'MoveOnlyNoAssignTriv', 'NoDefault': 'NoDefaultTriv'}
+TWIN.update({v: k for k, v in list(TWIN.items())})
+
+# operation: (statement using `V v;` / values, documented requirements (README "brief"))
+REQ_OPS = {
+    'ctor_count':        ('V v (3);', ['DefaultInsertable']),
+    'ctor_count_value':  ('V v (3, mk ());', ['CopyInsertable']),
+    'ctor_copy':         ('V a; V v (a);', ['CopyInsertable']),
+    'ctor_move':         ('V a; V v (std::move (a));', ['MoveInsertable']),
+    'ctor_range_ptr':    ('const A *p = nullptr; V v (p, p);', ['EmplaceConstructible', 'CopyInsertable']),
+    'resize_count':      ('V v; v.resize (3);', ['MoveInsertable', 'DefaultInsertable']),
+    'resize_count_value': ('V v; v.resize (3, mk ());', ['CopyInsertable']),
+    'push_back_copy':    ('V v; const A a = mk (); v.push_back (a);', ['CopyInsertable']),
+    'push_back_move':    ('V v; v.push_back (mk ());', ['MoveInsertable']),
+    'emplace_back_move': ('V v; v.emplace_back (mk ());', ['EmplaceConstructible', 'MoveInsertable']),
+    'reserve':           ('V v; v.reserve (10);', ['MoveInsertable']),
+    'shrink_to_fit':     ('V v; v.shrink_to_fit ();', ['MoveInsertable']),
+    'pop_back_clear':    ('V v; v.clear (); if (! v.empty ()) v.pop_back ();', ['Erasable']),
+    'append_range':      ('V v; const A *p = nullptr; v.append (p, p);', ['EmplaceConstructible', 'CopyInsertable', 'MoveInsertable']),
+    'append_move_range': ('V v; A *p = nullptr; v.append (std::make_move_iterator (p), std::make_move_iterator (p));', ['EmplaceConstructible', 'MoveInsertable']),
+    'insert_value':      ('V v; const A a = mk (); v.insert (v.begin (), a);', ['CopyInsertable', 'CopyAssignable', 'MoveInsertable', 'MoveAssignable']),
+    'erase':             ('V v; if (! v.empty ()) v.erase (v.begin ());', ['MoveAssignable', 'Erasable']),
+    'assign_count':      ('V v; v.assign (2, mk ());', ['CopyInsertable', 'CopyAssignable']),
+    'swap':              ('V a, v; v.swap (a);', ['MoveInsertable', 'MoveAssignable', 'Swappable']),
+}
+
+
+def req_source(op, arch, N):
+    body, prov = ARCH[arch]
+    stmt, needs = REQ_OPS[op]
+    mk = 'A (1)' if arch.startswith('NoDefault') else 'A ()'
+    return ('#include <gch/small_vector.hpp>\n#include <iterator>\n#include <utility>\nstruct A { %s };\n'
+            'static A mk () { return %s; }\ntypedef gch::small_vector<A, %d> V;\nvoid f () { %s }\nint main () { f (); return 0; }\n'
+            % (body, mk, N, stmt))
+
+
+def req_gen(cfg):
+    op, arch, N, std, cxx = cfg
+    src = req_source(op, arch, N)
+    d = os.path.join(P.CACHE, 'reqsrc')
+    os.makedirs(d, exist_ok=True)
+    path = os.path.join(d, 'req_%s.cpp' % P.sha(src))
+    if not os.path.exists(path):
+        open(path + '.tmp%d' % os.getpid(), 'w').write(src)
+        os.replace(path + '.tmp%d' % os.getpid(), path)
+    flags = ['-DGCH_DISABLE_CONCEPTS'] if False else []
+    exe, log = compile_prog(path, flags, std, cxx, syntax_only=True)
+    ok = log.startswith('OK')
+    return dict(op=op, arch=arch, N=N, std=std, cxx=cxx, compiles=ok, log=log[-800:])
+
+
+def c13_facts(tier, seed):
+    if tier == 'quick':
+        ccfgs = [(p, 'c++17', 'g++') for p in range(5)] + [(4, 'c++20', 'g++')]
+        stds = [('c++17', 'g++'), ('c++20', 'g++')]
+        Ns = [2]
+    else:
+        ccfgs = [(p, s, c) for p in range(5) for (s, c) in (('c++11', 'g++'), ('c++17', 'g++'), ('c++20', 'g++'), ('c++20', 'clang++'))]
+        stds = [('c++11', 'g++'), ('c++17', 'g++'), ('c++20', 'g++'), ('c++17', 'clang++'), ('c++20', 'clang++')]
+        Ns = [0, 2]
+    rcfgs = [(op, arch, N, s, c) for op in REQ_OPS for arch in ARCH for N in Ns for (s, c) in stds]
+    with cf.ThreadPoolExecutor(max_workers=max(2, P.NCPU - 2)) as ex:
+        conv_f = [ex.submit(conv_gen, c) for c in ccfgs]
+        req_f = [ex.submit(req_gen, c) for c in rcfgs]
+        conv_rows = [r for f in conv_f for r in f.result()]
+        reqs = [f.result() for f in req_f]
+    by = {(r['op'], r['arch'], r['N'], r['std'], r['cxx']): r for r in reqs}
+    rows = list(conv_rows)
+    for r in reqs:
+        tw = by.get((r['op'], TWIN[r['arch']], r['N'], r['std'], r['cxx']))
+        f = dict(t='req', op=r['op'], arch=r['arch'], N=r['N'], std=r['std'] + '-' + r['cxx'], needs=REQ_OPS[r['op']][1],
+                 provides=ARCH[r['arch']][1], compiles=r['compiles'], twinKnown=tw is not None and r['arch'].endswith('Triv'),
+                 twinCompiles=bool(tw and tw['compiles']))
+        rows.append((json.dumps(f), dict(kind='req', cfg=[r['op'], r['arch'], r['N'], r['std'], r['cxx']])))
+    res = facts_result([r[0] for r in rows], [r[1] for r in rows],
+                       'conversion facts (%d type-pair x operation x iterator-kind records) + minimal-requirement compile grid (%d)' %
+                       (len(conv_rows), len(reqs)), 'c13')
+    return res
+
+
+EXTRA = {
+    'C19': [c19],
+    'C18': [c18_table],
+    'C13': [c13_facts],
+}
 
 
 def replay(rec):
-    print('replay of kind %s is not supported yet' % rec.get('kind'))
-    return 2
+    """Re-generate the fact behind a recorded violation and validate it again."""
+    ex = rec['extra']
+    gen = ex['gen']
+    kind = gen['kind']
+    cfg = tuple(gen['cfg'])
+    if kind == 'layout':
+        rows = layout_gen(cfg)
+    elif kind == 'noexcept':
+        rows = noexcept_gen(cfg)
+    elif kind == 'conv':
+        rows = conv_gen(cfg)
+    elif kind == 'req':
+        r = req_gen(cfg)
+        tw = req_gen((cfg[0], TWIN[cfg[1]]) + cfg[2:])
+        f = dict(t='req', op=r['op'], arch=r['arch'], N=r['N'], std=r['std'] + '-' + r['cxx'], needs=REQ_OPS[r['op']][1],
+                 provides=ARCH[r['arch']][1], compiles=r['compiles'], twinKnown=r['arch'].endswith('Triv'), twinCompiles=tw['compiles'])
+        rows = [(json.dumps(f), gen)]
+    else:
+        print('unknown replay kind %s' % kind)
+        return 2
+    res = facts_result([r[0] for r in rows], [r[1] for r in rows], 'replay', kind)
+    same = [v for v in res['violations'] if v['property'] == rec['property'] and v['check'] == rec['check']
+            and v['extra']['fact_sig'] == ex['fact_sig']]
+    if same:
+        print('VIOLATION property=%s replay=(this file) check="%s" fact=%s' % (rec['property'], rec['check'], json.dumps(same[0]['extra']['fact'])[:600]))
+        return 1
+    print('not reproduced: %s / %s' % (rec['property'], rec['check']))
+    return 0
